@@ -511,6 +511,19 @@ def handleObj (st : DState) (parts : List String) : Option (DState × String) :=
           | _ => some (st, "M=-/err")
       | _, _ => some (st, "bad-op")
     | _, _ => some (st, "bad-op")
+  | ["clonex", aid, tid, tid2, val] =>
+    -- Clone into a variable of another type: marshal by the source type, unmarshal by the destination type
+    match parseNat aid, parseNat tid, parseNat tid2 with
+    | some ai, some ti, some tj =>
+      match st.atlases.lookup ai, parseValue st.types ti val with
+      | some a, some v =>
+        let mo := marshalV st.types a trLib 100000 ti v
+        if mo.fail.isSome || bindFails st.types a ti || bindFails st.types a tj then some (st, "M=-/err") else
+        match unmV st.types a trLib st.it 100000 tj (zeroVal st.types 64 tj) mo.toks with
+        | .ok rv [] _ => some (st, "M=" ++ showVal rv ++ "/ok")
+        | _ => some (st, "M=-/err")
+      | _, _ => some (st, "bad-op")
+    | _, _, _ => some (st, "bad-op")
   | "pump" :: sf :: kf :: ln :: ind :: hx :: _ =>
     match parseHex hx, parseHex ind with
     | some bs, some indent =>
@@ -567,7 +580,7 @@ partial def loop (hin : IO.FS.Stream) (hout : IO.FS.Stream) (st : DState) : IO U
   match l.splitOn " " with
   | id :: rest0 =>
     -- `clonev` (source passed by value instead of by pointer) is the same function of the value in the model
-    let rest := match rest0 with | "clonev" :: r => "clone" :: r | "autogenj" :: r => "autogen" :: r | "frame0" :: f :: r => "frame" :: (f ++ "0") :: r | r => r
+    let rest := match rest0 with | "clonev" :: r => "clone" :: r | "schedb" :: r => "sched" :: r | "schedk" :: r => "sched" :: r | "autogenj" :: r => "autogen" :: r | "frame0" :: f :: r => "frame" :: (f ++ "0") :: r | r => r
     match handleObj st rest with
     | some (st', out) =>
       hout.putStrLn (id ++ " " ++ out)
